@@ -2,3 +2,4 @@ SPECIFICATION TSpec
 CHECK_DEADLOCK FALSE
 CONSTANTS
   MaxDamage = 0
+  MaxDamageParse = 2
